@@ -199,11 +199,11 @@ func ruleReattach(c *Ctx) {
 				}
 				switch kv.Key.(*ast.Ident).Name {
 				case "Protocol":
-					got["p"] = len(pvVars) == 3 && identObj(sinfo, kv.Value) == pvVars[1]
+					got["p"] = len(pvVars) == 3 && (identObj(sinfo, kv.Value) == pvVars[1] || identObj(sinfo, p.Deref(si.f, kv.Value)) == pvVars[1])
 				case "ProtocolVersion":
-					got["v"] = len(pvVars) == 3 && identObj(sinfo, kv.Value) == pvVars[0]
+					got["v"] = len(pvVars) == 3 && (identObj(sinfo, kv.Value) == pvVars[0] || identObj(sinfo, p.Deref(si.f, kv.Value)) == pvVars[0])
 				case "Addr":
-					if call, isC := ast.Unparen(kv.Value).(*ast.CallExpr); isC {
+					if call, isC := ast.Unparen(p.Deref(si.f, kv.Value)).(*ast.CallExpr); isC {
 						if se, isS := call.Fun.(*ast.SelectorExpr); isS && se.Sel.Name == "Addr" && identObj(sinfo, se.X) == lv {
 							got["a"] = true
 						}
